@@ -395,4 +395,112 @@ theorem roundtrip_dense_sparse_dense (m : Src) (d sp d2 : St)
   rw [get3_srcOf_T d x a x1 (by rw [hS1]; exact hx) (by rw [hA1]; exact ha) (by rw [hS1]; exact hx1)]
   rw [hent1 a ha x hx x1 hx1]
 
+/-! ## table constructors and POMDP constructors at full strength (tight rows, no hypothesis) -/
+
+theorem accepted_tablesT (k : Kind) (s : St) (t : Tab3) (hacc : (step k s (.setT3D t)).2 = false) :
+    RowsOK (rowT k.base) (step k s (.setT3D t)).1.T := by
+  obtain ⟨_, ht3, _⟩ := vf_unpack all_validate_first
+  obtain ⟨hrT, _⟩ := sparse_setters_recheck
+  obtain ⟨kb, ko⟩ := k
+  simp only [step, prog, ht3, exec_setter_true] at hacc ⊢
+  by_cases hc' : okT3D kb s t = true
+  · simp only [hc', if_true]
+    simp only [okT3D, Bool.and_eq_true] at hc'
+    apply stored_tableT kb s.S s.A s.S t hc'.1
+    intro hsp; subst hsp
+    simpa [hrT] using hc'.2
+  · simp [hc'] at hacc
+
+theorem accepted_obsT (k : Kind) (s : St) (o : Tab3) (hacc : (step k s (.setO3D o)).2 = false) :
+    RowsOK (rowT k.obs) (step k s (.setO3D o)).1.Om ∧ (step k s (.setO3D o)).1.T = s.T ∧
+    (step k s (.setO3D o)).1.disc = s.disc := by
+  obtain ⟨_, _, _, ho3, _⟩ := vf_unpack all_validate_first
+  obtain ⟨_, hrO⟩ := sparse_setters_recheck
+  obtain ⟨kb, ko⟩ := k
+  simp only [step, prog, ho3, exec_setter_true] at hacc ⊢
+  by_cases hc' : okO3D ko s o = true
+  · simp only [hc', if_true, and_true]
+    simp only [okO3D, Bool.and_eq_true] at hc'
+    apply stored_tableT ko s.S s.A s.O o hc'.1
+    intro hsp; subst hsp
+    simpa [hrO] using hc'.2
+  · simp [hc'] at hacc
+
+/-- `Model(s, a, t, r, d)` / `SparseModel(s, a, t, r, d)`: whatever object the constructor returns is valid (tight rows),
+    for all sizes, tables and discounts, nan included -/
+theorem ctor3D_valid (k : Rep) (S A : Nat) (t r : Tab3) (d : XRat) (s : St)
+    (hc : ctor3D k S A t r d = some s) : ValidT ⟨k, k⟩ s := by
+  obtain ⟨hvd, ht3, _⟩ := vf_unpack all_validate_first
+  unfold ctor3D at hc
+  simp only [exec_append] at hc
+  have e1 : exec (prog ⟨k, k⟩ (.setDiscount d)) (blank S A 0) =
+      if (discGuard k).eval d = true then (blank S A 0, true) else ({ blank S A 0 with disc := d }, false) := by
+    simp only [prog, hvd, exec_setter_true]
+    by_cases hg : (discGuard k).eval d = true <;> simp [hg]
+  by_cases hg : (discGuard k).eval d = true
+  · simp [e1, hg] at hc
+  · have hg' : (discGuard k).eval d = false := by simpa using hg
+    have hdisc : DiscOK d := (discGuard_iff k d).1 hg'
+    simp only [e1, hg', Bool.false_eq_true, if_false] at hc
+    set s1 : St := { blank S A 0 with disc := d } with hs1
+    have e2 : exec (prog ⟨k, k⟩ (.setT3D t)) s1 = step ⟨k, k⟩ s1 (.setT3D t) := rfl
+    rw [e2] at hc
+    by_cases hacc : (step ⟨k, k⟩ s1 (.setT3D t)).2 = true
+    · simp [hacc] at hc
+    · have hacc' : (step ⟨k, k⟩ s1 (.setT3D t)).2 = false := by simpa using hacc
+      simp only [hacc', Bool.false_eq_true, if_false] at hc
+      have hrows := accepted_tablesT ⟨k, k⟩ s1 t hacc'
+      have hkeep : (step ⟨k, k⟩ s1 (.setT3D t)).1.disc = d ∧ (step ⟨k, k⟩ s1 (.setT3D t)).1.Om = [] := by
+        simp only [step, prog, ht3, exec_setter_true]
+        split <;> simp [s1, blank]
+      simp only [prog, exec] at hc
+      simp only [Bool.false_eq_true, if_false, Option.some.injEq] at hc
+      subst hc
+      exact ⟨by simpa [hkeep.1] using hdisc, hrows, by intro m hm; simp [hkeep.2] at hm⟩
+
+theorem pomdpBasic_validT (kb ko : Rep) (base : St) (O : Nat) (hO : 0 < O) (hv : ValidT ⟨kb, kb⟩ base) :
+    ValidT ⟨kb, ko⟩ (pomdpBasic base O) := by
+  refine ⟨hv.disc, hv.T, ?_⟩
+  intro m hm row hrow
+  simp only [pomdpBasic, List.mem_map, List.mem_range] at hm
+  obtain ⟨_, _, rfl⟩ := hm
+  simp only [List.mem_map, List.mem_range] at hrow
+  obtain ⟨_, _, rfl⟩ := hrow
+  exact rowT_of_RowS ko (firstRow_ok O hO)
+
+/-- `POMDP::Model(o, of, params…)` / `POMDP::SparseModel(o, of, params…)` -/
+theorem pomdp3D_valid (k : Kind) (base : St) (O : Nat) (o : Tab3) (s : St)
+    (hv : ValidT ⟨k.base, k.base⟩ base) (hc : pomdp3D k base O o = some s) : ValidT k s := by
+  unfold pomdp3D at hc
+  set s0 : St := { base with O := O, Om := mk3 base.A base.S O (fun _ _ _ => .fin 0) } with hs0
+  have e : exec (prog k (.setO3D o)) s0 = step k s0 (.setO3D o) := rfl
+  rw [e] at hc
+  by_cases hacc : (step k s0 (.setO3D o)).2 = true
+  · simp [hacc] at hc
+  · have hacc' : (step k s0 (.setO3D o)).2 = false := by simpa using hacc
+    simp only [hacc', Bool.false_eq_true, if_false, Option.some.injEq] at hc
+    subst hc
+    obtain ⟨h1, h2, h3⟩ := accepted_obsT k s0 o hacc'
+    exact ⟨by rw [h3]; exact hv.disc, by rw [h2]; exact hv.T, h1⟩
+
+/-- conversion of a whole POMDP from ANY source model: rejected, or a valid POMDP in the target representation -/
+theorem pomdp_copy_valid (kb ko : Rep) (m : Src) (O : Nat) (om : Tab3) (s : St)
+    (h : (copyBase kb m).bind (fun b => copyObs ko b O om) = some s) : ValidT ⟨kb, ko⟩ s := by
+  cases hb : copyBase kb m with
+  | none => simp [hb] at h
+  | some b =>
+      simp only [hb, Option.bind] at h
+      rcases convert_rejects_or_valid kb m with hnone | ⟨b', hb', hvb, _, hrowsS⟩
+      · rw [hb] at hnone; cases hnone
+      · rw [hb] at hb'
+        have hbb : b = b' := Option.some.inj hb'
+        subst hbb
+        obtain ⟨hT, _, hdisc, _, hOm⟩ := copyObs_preserves ko b O om s h
+        refine ⟨by rw [hdisc]; exact hvb.disc, by rw [hT]; exact hvb.T, ?_⟩
+        intro mm hm row hrow
+        have := hOm mm hm row hrow
+        cases ko with
+        | dense => exact this
+        | sparse => exact rowT_of_RowS .sparse this
+
 end AITB.MS
